@@ -53,8 +53,8 @@ def _chunk(args):
   cfgs, seed = args
   base = c10.SCENE.replace('<flag energy="enable"/>', "<flag />").replace('cone="elliptic"', 'cone="pyramidal"')
   out = []
-  rng = np.random.default_rng(seed)
   for c in cfgs:
+    rng = family.rng_for(c, seed, "flags")  # the state belongs to the configuration (replayable), not to its place in the chunk
     dis, en, tg = set(c["dis"]), set(c["en"]), c["toggle"]
     integ = c.get("integrator", "Euler")
     where = {"disable": sorted(dis), "enable": sorted(en), "toggle": tg, "integrator": integ}
@@ -70,7 +70,7 @@ def _chunk(args):
     mjm = mujoco.MjModel.from_xml_string(xml)
     mjd = mujoco.MjData(mjm)
     m = mjw.put_model(mjm)
-    d = mjw.make_data(mjm, nworld=1)
+    d = mjw.make_data(mjm, nworld=1, nconmax=64, njmax=256)
     st = {"qpos": mjm.qpos0.copy(), "qvel": rng.uniform(-0.5, 0.5, size=mjm.nv), "ctrl": rng.uniform(-1.5, 1.5, size=mjm.nu), "act": rng.uniform(-0.3, 0.3, size=mjm.na)}
     st["qpos"][7] += 0.5  # the arm's hinge beyond its limit
     family.apply_state(mjm, mjd, m, d, st)
@@ -81,12 +81,16 @@ def _chunk(args):
       family.apply_state(mjm, mjd, m, d, st)
     mujoco.mj_step(mjm, mjd)
     mjw.step(m, d)
+    if d.overflow.numpy().any():
+      raise RuntimeError(f"capacity overflow in the flag scene ({d.overflow.numpy().tolist()}): the comparison would be meaningless")
     sc = max(1.0, float(np.abs(mjd.qacc).max()) * mjm.opt.timestep * 2)
     for f, tol in (("qpos", 1e-3), ("qvel", 5e-4), ("act", 1e-5), ("sensordata", 5e-3), ("energy", 1e-4)):
       g, r = getattr(d, f).numpy()[0], np.asarray(getattr(mjd, f))
       s = max(1.0, float(np.abs(r).max()) if r.size else 1.0, sc if f in ("qvel", "sensordata") else 0.0)
       if r.size and float(np.abs(g - r).max()) > tol * s:
-        out.append(({"what": "step with these flags differs from mj_step", "field": f}, f"{f}: err {float(np.abs(g - r).max()):.3g} scale {s:.3g}", where))
+        i_ = int(np.argmax(np.abs(g - r)))
+        out.append(({"what": "step with these flags differs from mj_step", "field": f}, f"{f}: err {float(np.abs(g - r).max()):.3g} scale {s:.3g} at index {i_}; contacts {int(d.nacon.numpy()[0])} vs {mjd.ncon}, "
+                    f"rows {int(d.nefc.numpy()[0])} vs {mjd.nefc}", dict(where, state={k: np.asarray(v).tolist() for k, v in st.items()})))
         break
     # ---- (b) toggling ONE flag changes only what Flags.tla allows
     on = (dis | {tg}) if tg in ("constraint", "equality", "frictionloss", "limit", "contact", "spring", "damper", "gravity", "clampctrl", "warmstart", "filterparent",
@@ -97,7 +101,7 @@ def _chunk(args):
     for dd, ee in ((off, en_off), (on, en_on)):
       mm = mujoco.MjModel.from_xml_string(with_flags(scene, dd, ee))
       m2 = mjw.put_model(mm)
-      d2 = mjw.make_data(mm, nworld=1)
+      d2 = mjw.make_data(mm, nworld=1, nconmax=64, njmax=256)
       family.apply_state(mm, mujoco.MjData(mm), m2, d2, st)
       obs.append(observe(mjw, mujoco, mm, m2, d2))
     allowed = set(c["maychange"])
